@@ -8,6 +8,19 @@ points for the invariant monitors)."""
 from __future__ import annotations
 
 
+class _WireMap(dict):
+    """wire id -> OutPort, remembering which Hugr object the port belongs to"""
+
+    def __init__(self, interp):
+        super().__init__()
+        self.interp = interp
+        self.owner: dict[str, int] = {}
+
+    def __setitem__(self, k, v):
+        super().__setitem__(k, v)
+        self.owner[k] = id(self.interp._cur)
+
+
 class Interp:
     def __init__(self, hook=None):
         from vf.gen.types import Builder
@@ -15,7 +28,8 @@ class Interp:
 
         self.tb = Builder()
         self.vb = VBuilder(self.tb)
-        self.w: dict[str, object] = {}       # wire id -> OutPort
+        self._cur = None                      # Hugr the statements being executed belong to
+        self.w = _WireMap(self)              # wire id -> OutPort
         self.nodes: dict[str, object] = {}   # statement / function id -> Node
         self.handles: list[tuple] = []       # (what, handle, expected number of outputs)
         self.loads: list[tuple] = []         # (load node, hugr, value descriptor type)
@@ -65,6 +79,10 @@ class Interp:
             return ops.CallIndirect()
         raise AssertionError(ref)
 
+    def fault(self, where, st, **kw):
+        """hook for the fault-injecting subclass (C13); the base interpreter injects nothing"""
+        return False
+
     def step(self, b, what):
         self.calls += 1
         if self.hook is not None:
@@ -82,9 +100,14 @@ class Interp:
 
     # ------------------------------------------------------------------ statements
     def run_stmts(self, b, stmts):
-        for st in stmts:
-            getattr(self, "st_" + st["s"])(b, st)
-            self.step(b, st["s"])
+        saved, self._cur = self._cur, b.hugr
+        try:
+            for st in stmts:
+                self.fault("region", st, b=b)
+                getattr(self, "st_" + st["s"])(b, st)
+                self.step(b, st["s"])
+        finally:
+            self._cur = saved
 
     def st_op(self, b, st):
         op = self.make_op(st["op"])
@@ -123,6 +146,7 @@ class Interp:
 
     def st_call(self, b, st):
         f = self.nodes[st["f"]]
+        self.fault("call", st, b=b, f=f)
         n = b.call(f, *self.wires(st["args"]), **self._inst(st))
         self.nodes[st["id"]] = n
         self.handles.append(("call", n, len(st["outs"])))
@@ -131,6 +155,7 @@ class Interp:
 
     def st_loadfn(self, b, st):
         f = self.nodes[st["f"]]
+        self.fault("loadfn", st, b=b, f=f)
         n = b.load_function(f, **self._inst(st))
         self.nodes[st["id"]] = n
         self.w[st["out"]] = n[0]
@@ -149,10 +174,14 @@ class Interp:
         self.define(b, st["func"], parent=b.parent_node)
 
     # ------------------------------------------------------------------ containers
-    def bind(self, params, ports):
+    def bind(self, params, ports, hugr=None):
         assert len(params) == len(ports), (params, ports)
+        saved = self._cur
+        if hugr is not None:
+            self._cur = hugr
         for p, port in zip(params, ports):
             self.w[p] = port
+        self._cur = saved
 
     def st_dfg(self, b, st):
         from hugr.build import Dfg
@@ -163,8 +192,9 @@ class Interp:
             d = b.add_nested(*args)
         else:
             d = Dfg(*self.row(st["ptys"]))
-        self.bind(st["params"], d.inputs())
+        self.bind(st["params"], d.inputs(), d.hugr)
         self.run_stmts(d, st["body"])
+        self.fault("dfg", st, d=d)
         d.set_outputs(*self.wires(st["outs_inner"]))
         if mode == "add":
             n = d.to_node()
@@ -191,8 +221,9 @@ class Interp:
 
         def build_case(case_b, i):
             cs = st["cases"][i]
-            self.bind(cs["params"], case_b.inputs())
+            self.bind(cs["params"], case_b.inputs(), case_b.hugr)
             self.run_stmts(case_b, cs["body"])
+            self.fault("case", st, case_b=case_b, i=i, outs=self.wires(cs["outs"]))
             case_b.set_outputs(*self.wires(cs["outs"]))
 
         if mode == "ifelse":
@@ -207,8 +238,10 @@ class Interp:
                 c = Conditional(sum_ty, self.row(st["otys"]))
             else:
                 c = b.add_conditional(sw, *args)
+            self.fault("cond", st, c=c, build_case=build_case)
             if mode == "ctx":
                 with c:
+                    self.fault("cond-ctx", st, c=c, build_case=build_case)
                     for i in st["order"]:
                         with c.add_case(i) as cb:
                             build_case(cb, i)
@@ -236,8 +269,9 @@ class Interp:
             tl = b.add_tail_loop(self.wires(st["just"]), self.wires(st["rest"]))
         else:
             tl = TailLoop(self.row(st["jtys"]), self.row(st["rtys"]))
-        self.bind(st["params"], tl.inputs())
+        self.bind(st["params"], tl.inputs(), tl.hugr)
         self.run_stmts(tl, st["body"])
+        self.fault("loop", st, d=tl)
         tl.set_loop_outputs(self.w[st["ctl"]], *self.wires(st["rest_outs"]))
         if mode == "root":
             self.handles.append(("builder:TailLoop", tl, len(st["outs"])))
@@ -280,7 +314,7 @@ class Interp:
                             break
                 if bb is None:
                     bb = cfg.add_block(*self.row(blk["ins"]))
-            self.bind(blk["params"], bb.inputs())
+            self.bind(blk["params"], bb.inputs(), bb.hugr)
             self.run_stmts(bb, blk["body"])
             others = self.wires(blk["others"])
             if blk["branch"]["kind"] == "unit":
@@ -289,6 +323,7 @@ class Interp:
                 bb.set_block_outputs(self.w[blk["branch"]["w"]], *others)
             built[name] = bb
             self.handles.append(("builder:Block", bb, None))
+        self.fault("cfg", st, cfg=cfg, built=built)
         for blk in st["blocks"]:
             for i, s in enumerate(blk["succs"]):
                 if (blk["name"], i) in done_edges:
@@ -331,8 +366,9 @@ class Interp:
         self.nodes[f["id"]] = fb.parent_node
         if f.get("md"):
             fb.hugr[fb.parent_node].metadata.update(f["md"])
-        self.bind(f["params"], fb.inputs())
+        self.bind(f["params"], fb.inputs(), fb.hugr)
         self.run_stmts(fb, f["body"])
+        self.fault("func", f, fb=fb, outs=self.wires(f["out_wires"]))
         fb.set_outputs(*self.wires(f["out_wires"]))
         return fb
 
